@@ -31,12 +31,12 @@ ASSUMPTIONS = ['gfortran 12 -O0 -fcheck=all with FPE traps is the reference sema
                'the caller passes scalars as numpy scalars of the annotated dtype and arrays as Fortran-ordered numpy arrays, '
                'as the Loki pygen tests do',
                'reals compared to the precision of the declared kind (see LEVEL_NOTE)']
-BUDGET_S = {'quick': 600, 'thorough': 3000}
+BUDGET_S = {'quick': 1800, 'thorough': 5400}
 CASE_TIMEOUT_S = 900
 
 SLICES = {
     1: ('int_div', dict(int_div=True)),
-    3: ('sign', dict(sign=True)),
+    3: ('sign', dict(sign=True, sign_boost=True)),
     5: ('lbounds', dict(lbounds=True)),
     7: ('stride', dict(stride=True)),
     9: ('default_real_lit', dict(default_real_lit=True)),
